@@ -719,7 +719,8 @@ func n09Hex(b []byte) string {
 }
 
 type n09Op struct {
-	K    string  `json:"k"` // lock unlock rotate restart join stop stall unstall drop sync hold unhold
+	K    string  `json:"k"` // lock unlock rotate restart join stop stall unstall drop sync hold unhold fburst shortlived pause
+	N    int     `json:"n,omitempty"` // fburst: records; shortlived: holds; pause: milliseconds
 	T    int     `json:"t,omitempty"` // Timeout in seconds (C10 scripts only; the C09 workload never waits)
 	F    int     `json:"f,omitempty"`
 	Wipe bool    `json:"wipe,omitempty"`
@@ -750,6 +751,12 @@ func (o n09Op) String() string {
 		return fmt.Sprintf("join f%d wipe=%v", o.F, o.Wipe)
 	case "stop", "stall", "unstall", "drop":
 		return fmt.Sprintf("%s f%d", o.K, o.F)
+	case "fburst":
+		return fmt.Sprintf("fburst f%d: %d records (lock/unlock of db0 k7 id5) while the follower's log mutex is held", o.F, o.N)
+	case "shortlived":
+		return fmt.Sprintf("shortlived: %d holds with 1 s expiry and a value (db0 k20.. id6)", o.N)
+	case "pause":
+		return fmt.Sprintf("pause %d ms", o.N)
 	}
 	return o.K
 }
@@ -805,6 +812,7 @@ type n09Info struct {
 	knownLeftOver                      int
 	leaderRestarts                     int
 	holds, bigValues                   int
+	followerBursts, shortLived, pauses int
 	excludedEmptyRotation              int
 	excludedEmptyRingJoin              int
 	excludedRotationOverlap            int
@@ -1137,6 +1145,60 @@ func (e *n09Env) unholdSenders() {
 		ch.glock.Unlock()
 	}
 	e.held = nil
+}
+
+// followerBurst: the follower's log append (ReplicationClient.ProcessAofAppend, everything under Aof.aofGlock) is
+// made slow for a moment - the harness holds that mutex, as a slow disk flush would - while the leader logs n
+// records; the follower's receiver runs ahead of its append pipeline as far as the product lets it.
+func (e *n09Env) followerBurst(op n09Op) {
+	var aof *Aof
+	var cc *ReplicationClient
+	if op.F < len(e.slots) && e.slots[op.F].node != nil {
+		aof = e.slots[op.F].node.inst.slock.aof
+		cc = e.slots[op.F].node.inst.slock.replicationManager.clientChannel
+		aof.aofGlock.Lock()
+	}
+	for i := 0; i < op.N; i++ {
+		if i%2 == 0 {
+			e.sendQuiet(n09Op{K: "lock", Key: 7, Id: 5, E: 300, EF: 0x0100})
+		} else {
+			e.sendQuiet(n09Op{K: "unlock", Key: 7, Id: 5})
+		}
+	}
+	n09Drain(e.leader.inst.slock.aof)
+	if aof != nil {
+		// let the receiver get as far as it can, then let the log append go on
+		last, same := uint64(0), 0
+		for i := 0; i < 250 && same < 10 && cc != nil; i++ {
+			time.Sleep(2 * time.Millisecond)
+			if r := cc.state.recvCount; r == last {
+				same++
+			} else {
+				last, same = r, 0
+			}
+		}
+		aof.aofGlock.Unlock()
+	}
+	e.info.followerBursts++
+}
+
+func (e *n09Env) sendQuiet(op n09Op) {
+	n := len(e.log)
+	e.send(op)
+	e.log = e.log[:n] // hundreds of identical lines say nothing
+}
+
+// shortLived: op.N holds that expire after one second, each with a value - records the expiry filter of
+// Aof.LoadAofFile will skip once they are dead (file transfer to a joining follower, a follower's own restart).
+func (e *n09Env) shortLived(op n09Op) {
+	for i := 0; i < op.N; i++ {
+		v := &n09Val{Op: "set", B: []byte{0xe0 + byte(i), 0x5e}}
+		if i%2 == 1 {
+			v = &n09Val{Op: "set", L: 4500 + i, N: int64(i)}
+		}
+		e.send(n09Op{K: "lock", Key: 20 + i, Id: 6, E: 1, EF: 0x0100, V: v})
+	}
+	e.info.shortLived += op.N
 }
 
 // rotate is Admin.commandHandleRewriteAofCommand; before the switch the harness copies the file
@@ -2089,6 +2151,13 @@ func n09RunCluster(c *n09Case) (out n09Out) {
 		case "hold":
 			e.holdSenders()
 		case "unhold":
+		case "fburst":
+			e.followerBurst(op)
+		case "shortlived":
+			e.shortLived(op)
+		case "pause":
+			time.Sleep(time.Duration(op.N) * time.Millisecond)
+			e.info.pauses++
 		case "lock", "unlock":
 			if op.V != nil && op.V.L > 4000 {
 				e.info.bigValues++
